@@ -275,6 +275,13 @@ def _c20_floods(lines, seed, tier):
     # ... and variants in which the looked-up pairs SURVIVE an eviction: at the model's capacity one fresh pair pushes out the
     # least recently used of the two, at the production capacity the pairs are looked up between floods that fill the cache
     # to just below its capacity and then push it over (methods of pointers and promoted fields in every such sample)
+    # ... and a sample in which every lookup is also written l[0].name, m['k'].name and (o).name
+    for l in rnd.sample(lines, min(len(lines), 400 if tier == "quick" else 3000)):
+        c = json.loads(l)
+        c["forms"] = True
+        c["key"] = c["key"] + "+forms"
+        c["tags"] = list(c.get("tags") or []) + ["forms"]
+        out.append(json.dumps(c) + "\n")
     strata = [[l for l in lines if '"PName"' in l or '"AName"' in l],
               [l for l in lines if '"S10"' in l or '"S12"' in l or '"S11"' in l], lines]
     k = 30 if tier == "quick" else 200
